@@ -51,6 +51,9 @@ FILES = {
     'p:2': ['pkg/tests.py'],
     'p:3': ['pkg/__init__.py', 'pkg/tests/__init__.py', 'pkg/tests/test_d.py', 'pkg/foo-bar/tests.py', 'pkg/1st/tests.py'],
     'p:4': ['pkg/__init__.py', 'pkg/tests.py', 'pkg/inner/__init__.py', 'pkg/inner/tests.py', 'pkg/inner/ftests.py'],
+    # sibling packages whose names are in a string-prefix relation
+    'p:5': ['pkg/__init__.py', 'pkg/core/__init__.py', 'pkg/core/tests.py', 'pkg/core_ext/__init__.py', 'pkg/core_ext/tests.py',
+            'pkg/corex/__init__.py', 'pkg/corex/tests.py'],
     'd:foo-bar': ['foo-bar/tests.py'], 'd:.git': ['.git/tests.py'],
     'd:node_modules': ['node_modules/tests.py'], 'd:CVS': ['CVS/tests.py'],
     'd:1abc': ['1abc/tests.py'], 'd:__pycache__': ['__pycache__/tests.py'],
@@ -87,6 +90,12 @@ CONFIGS = {
     's_pkg_inner': {'s': ['pkg', 'pkg.inner']},
     's_inner_pkg': {'s': ['pkg.inner', 'pkg']},
     's_pkg_twice': {'s': ['pkg', 'pkg']},
+    's_core_ext': {'s': ['pkg.core', 'pkg.core_ext']},
+    's_ext_core': {'s': ['pkg.core_ext', 'pkg.core', 'pkg.corex']},
+    # several --module patterns; one of them only right when compiled alone
+    'm_multi_flag': {'m': [r'(?i)PKG\.', 'TEST_A', 'FTESTS']},
+    'm_multi_neg_flag': {'m': ['!(?i)PKG', '!TEST_A', '!TESTB']},
+    'm_multi_backref': {'m': [r'(t)es\1s$', r'(p)kg\.(i)nner']},
     # the search path spelled through a symbolic link to the tree
     'via_link': {'via_link': True},
     'via_link_tp_s': {'via_link': True, 'kind': 'test-path', 's': 'pkg'},
@@ -114,6 +123,8 @@ def cases(tier, seed):
                     continue
                 if 'inner' in str(CONFIGS[cfg].get('s', '')) and 'p:4' not in names:
                     continue          # only p:4 has the package pkg.inner
+                if 'core' in str(CONFIGS[cfg].get('s', '')) and 'p:5' not in names:
+                    continue
                 for od in orders:
                     yield [list(combo), cfg, od]
 
